@@ -1,6 +1,8 @@
 package props
 
 import (
+	"context"
+	"errors"
 	"fmt"
 	"math"
 	"sort"
@@ -155,6 +157,31 @@ type C08Direct struct {
 	// BatchThr, when present, gives every batch its own threshold (a caller that adapts the threshold between calls passes
 	// other options to the next call); 0 = Thr
 	BatchThr []float64 `json:"batch_thresholds,omitempty"`
+	// CancelAt, when present: per batch the number of organisms after which the context of that call reports cancellation
+	// (-1 never). The call then returns the context's error; the organisms it did not reach are handed to a further call.
+	CancelAt []int `json:"cancel_at,omitempty"`
+}
+
+// pollCtx reports cancellation from the (left+1)-th time its Done channel is asked for (speciate polls once per organism).
+type pollCtx struct {
+	context.Context
+	left   *int
+	closed chan struct{}
+}
+
+func (c pollCtx) Done() <-chan struct{} {
+	if *c.left <= 0 {
+		return c.closed
+	}
+	*c.left--
+	return c.Context.Done()
+}
+
+func (c pollCtx) Err() error {
+	if *c.left <= 0 {
+		return context.Canceled
+	}
+	return c.Context.Err()
 }
 
 func GenC08Direct() *rapid.Generator[C08Direct] {
@@ -209,6 +236,15 @@ func GenC08Direct() *rapid.Generator[C08Direct] {
 		}
 		if c.Exact && k >= 0 {
 			c.Thr = ds[k] // decisions exactly at the threshold
+		}
+		if rapid.IntRange(0, 3).Draw(t, "cancellations") == 0 {
+			for _, b := range c.Batches {
+				at := -1
+				if b > 1 && rapid.Bool().Draw(t, "cancel this call") {
+					at = rapid.IntRange(1, b-1).Draw(t, "cancel after")
+				}
+				c.CancelAt = append(c.CancelAt, at)
+			}
 		}
 		if len(c.Batches) > 1 && rapid.IntRange(0, 2).Draw(t, "adaptive threshold") == 0 {
 			for range c.Batches {
@@ -285,6 +321,23 @@ func CheckC08Direct(c C08Direct, rec *Rec) error {
 		}
 		at += b
 		pop.VerifAddOrganisms(batch)
+		if bi < len(c.CancelAt) && c.CancelAt[bi] > 0 && c.CancelAt[bi] < len(batch) {
+			// the call is cancelled after some organisms; the rest goes to a further call with a live context
+			left := c.CancelAt[bi]
+			closed := make(chan struct{})
+			close(closed)
+			err := pop.VerifSpeciate(pollCtx{Context: callOpts.NeatContext(), left: &left, closed: closed}, batch)
+			if !errors.Is(err, context.Canceled) {
+				return fmt.Errorf("speciate with a context cancelled after %d of %d organisms returned %v", c.CancelAt[bi], len(batch), err)
+			}
+			rec.Class("speciation call cancelled half way, remainder speciated by a further call")
+			batch = batch[c.CancelAt[bi]:]
+			for _, o := range batch {
+				if o.Species != nil {
+					return fmt.Errorf("an organism behind the cancellation point was assigned to species %d", o.Species.Id)
+				}
+			}
+		}
 		if err := pop.VerifSpeciate(callOpts.NeatContext(), batch); err != nil {
 			return fmt.Errorf("speciate returned error: %v", err)
 		}
